@@ -597,6 +597,47 @@ fn run_free(w: usize, n: usize, seed: u64, drop_after: Option<usize>, slow: f64,
            "acts": [], "sched": [], "seed": seed, "drained": true})
 }
 
+/// Tens of thousands of items through a pipe without hooks and without an event log (positions and counters beyond 16
+/// bits): the output as maximal runs of consecutive values, the number of calls of the processing function and of
+/// distinct items it was called for.
+fn run_bulk(w: usize, n: usize, case: &Value) -> Value {
+    install(None);
+    let calls = Arc::new(std::sync::atomic::AtomicUsize::new(0));
+    let seen: Arc<Vec<std::sync::atomic::AtomicBool>> = Arc::new((0..n).map(|_| std::sync::atomic::AtomicBool::new(false)).collect());
+    let (c2, s2) = (calls.clone(), seen.clone());
+    let f: Pipeline<usize, usize> = Arc::new(move |x: usize| {
+        c2.fetch_add(1, std::sync::atomic::Ordering::SeqCst);
+        if x < s2.len() {
+            s2[x].store(true, std::sync::atomic::Ordering::SeqCst);
+        }
+        x
+    });
+    let (tx, rx) = std::sync::mpsc::channel();
+    std::thread::spawn(move || {
+        let pipe = (0..n).pipe(f, w as u8);
+        quiet_panics();
+        let mut runs: Vec<(usize, usize)> = vec![];
+        for x in pipe {
+            match runs.last_mut() {
+                Some((a, l)) if *a + *l == x => *l += 1,
+                _ => runs.push((x, 1)),
+            }
+            if runs.len() > 1000 {
+                break;
+            }
+        }
+        let _ = tx.send(runs);
+    });
+    match rx.recv_timeout(Duration::from_secs(60)) {
+        Ok(runs) => json!({"st": "ok", "mode": "bulk", "W": w, "N": n, "cap": w, "ended": true,
+                           "runs": runs.iter().map(|(a, l)| json!([a, l])).collect::<Vec<_>>(),
+                           "calls": calls.load(std::sync::atomic::Ordering::SeqCst),
+                           "distinct": seen.iter().filter(|b| b.load(std::sync::atomic::Ordering::SeqCst)).count(),
+                           "ev": [], "acts": [], "sched": [], "path": [], "drained": true}),
+        Err(_) => json!({"st": "hang", "case": case.clone()}),
+    }
+}
+
 /// Runs in which the controller gave up waiting (each costs STEP_TIMEOUT and, on a wedged pipe,
 /// leaves spinning threads behind).  After a few of them the verdict is settled: stop running.
 static STUCK_RUNS: std::sync::atomic::AtomicUsize = std::sync::atomic::AtomicUsize::new(0);
@@ -715,6 +756,9 @@ pub fn exec(case: &Value) -> Vec<Value> {
     let w = get_u(case, "W");
     let n = get_u(case, "N");
     let mode = get_str(case, "mode");
+    if mode == "bulk" {
+        return vec![run_bulk(w, n, case)];
+    }
     let mut r = if mode == "free" {
         let d = case.get("drop_after").and_then(|x| x.as_u64()).map(|x| x as usize);
         let slow = case.get("slow").and_then(|x| x.as_f64()).unwrap_or(0.2);
